@@ -114,6 +114,21 @@ def run(ctx):
                 ctx.case(('C-compose', a, b), True)
                 if ab not in tabs:
                     ctx.fail('C', 'C(%d) then C(%d) is not among the 24 gates' % (a, b), dict(a=a, b=b, product=ab))
+    # gate constructors hand out fresh tables: changing one gate's map in place must not affect the next gate built
+    for name in list(TEXT) + ['CNOT', 'C']:
+        for _ in range(ctx.budget(3, 20)):
+            mk = (lambda: CI.CNOT(0, 1)) if name == 'CNOT' else ((lambda k=rng.randrange(24): CI.C(k, 0)) if name == 'C' else (lambda: getattr(CI, name)(0)))
+            g1 = mk()
+            t1 = impl.ops_of(g1.forward_map)
+            nq = len(t1) // 2
+            g1.backward(impl.plist([G.rand_op(rng, nq)]))          # fills the lazily computed inverse
+            g1.forward_map.rotate_by(impl.pauli(G.rand_herm(rng, nq, nonid=True)))
+            g1.forward_map.gs[:] = (g1.forward_map.gs + 1) % 2      # the caller scribbles over the arrays it was handed
+            g1.backward_map.ps[:] = (g1.backward_map.ps + 2) % 4
+            t2 = impl.ops_of(mk().forward_map)
+            ctx.case(('fresh-gate', name, _), True)
+            if t2 != t1:
+                ctx.fail(name, 'the table of a newly built gate depends on what was done in place to the map of an earlier gate', dict(first=t1, second=t2))
     # rejected input
     for k in list(range(-3, 0)) + list(range(24, 30)) + [100, -24, 10 ** 6]:
         try:
